@@ -177,7 +177,9 @@ def eventsFaulty (cc : UInt8) (src : Bytes) (failAt : Option Nat) : List Event Ã
 def errorsOf (evs : List Event) : List PErr :=
   evs.filterMap (fun ev => match ev with | .error e => some e | .node _ => none)
 
-/-- does some entry of the text carry an Inf/NaN spelling? (such cases are compared by outcome class only) -/
+/-- does some entry of the text carry an Inf/NaN spelling, or a magnitude of 10^30 or more (from which the program's
+    float64 arithmetic can overflow to Â±Inf and NaN, which exact arithmetic does not have)?  Such cases are compared by
+    outcome class only. -/
 def hasNonFinite (cc : UInt8) (src : Bytes) : Bool :=
   go none (Scanner.scan src none).1
 where
@@ -190,6 +192,7 @@ where
       | .indented k =>
         match cur, k with
         | some _, .entryNonFinite _ => true
+        | some _, .entry _ v => if v.num.natAbs â‰¥ 10 ^ 30 * v.den then true else go cur ls
         | _, _ => go cur ls
 
 inductive FmtArg where
